@@ -974,6 +974,26 @@ func c06BigSection(target, variant int) ref.PMTSection {
 		}
 		return s
 	}
+	if variant == 4 {
+		// almost everything is PROGRAM info (program_info_length passes 255, 511, 767): descriptors of up to 200
+		// body bytes in the program loop, two plain streams behind them
+		s := ref.PMTSection{Program: 0x0505, Version: byte(target & 31), CurrentNext: true, PCRPID: 0x51}
+		room := target - 13 - 10
+		for i := 0; room >= 2; i++ {
+			n := min(room-2, 200)
+			if room-2-n == 1 {
+				n-- // never leave a single byte
+			}
+			b := make([]byte, n)
+			for k := range b {
+				b[k] = byte(0x1B + k*5) // reads like stream entries when the stream loop starts inside
+			}
+			s.ProgDescs = append(s.ProgDescs, ref.Desc{Tag: byte(0xC0 + i), Body: b})
+			room -= 2 + n
+		}
+		s.Streams = []ref.Stream{{Type: 0x0F, PID: 0x51}, {Type: 0x1B, PID: 0x52}}
+		return s
+	}
 	s := ref.PMTSection{Program: uint16(0x0101 * (variant + 1)), Version: byte((target + variant) & 31), CurrentNext: variant%2 == 0, PCRPID: 0x31}
 	if variant > 0 {
 		s.ProgDescs = []ref.Desc{c06DescMenu[2], c06DescMenu[5]}
@@ -1134,6 +1154,12 @@ func c06GenBig(r *engine.Run, emit func(c06BigCase)) {
 		for _, lead := range []int{8, 9, 10, 11, 12, 13} {
 			emit(c06BigCase{sl, 0, lead, false})
 			emit(c06BigCase{sl, 1, lead, true})
+		}
+	}
+	// program info of 127..998 bytes (program_info_length through every value of its high nibble)
+	for _, sl := range []int{150, 277, 278, 279, 290, 400, 534, 535, 600, 790, 791, 1021} {
+		for _, lead := range []int{0, 7} {
+			emit(c06BigCase{sl, 4, lead, false})
 		}
 	}
 	// one stream with 125..129, 254..258, 300 and ~496 tiny descriptors
@@ -1433,7 +1459,7 @@ func init() {
 			},
 			&engine.Enum[c06BigCase]{
 				Name: "large-sections",
-				Rule: "case = section padded to an exact section_length in {150,180,181,184,400,1021} (thorough: 16 lengths around the one-, two- and three-packet limits up to the maximal 1021) x 2 content variants (plus a third with as many descriptor-less streams as fit: 125, 127, 128, 129 and 201 streams, and a fourth with one stream carrying 125..129, 254..258, 300 and ~496 tiny descriptors) x lead-in {pointer_field 0, pointer_field 100 with filler, foreign section first; for two lengths also a foreign section with section_length 1022 / 1023, one / two empty sections (section_length 0), and a private section with section_length 1500 / 4093 first} x last-packet style (quick: one style per variant); the last stream's ES_info_length exceeds 255; per case: accessors, done predicate on every prefix, ExtractCRC, NewPMT, ReadPMT for every first-packet size 1..184 x second packet full/3 bytes with a foreign-PID packet in every gap; non-trivial = each (case, first size, second size)",
+				Rule: "case = section padded to an exact section_length in {150,180,181,184,400,1021} (thorough: 16 lengths around the one-, two- and three-packet limits up to the maximal 1021) x 2 content variants (plus a third with as many descriptor-less streams as fit: 125, 127, 128, 129 and 201 streams, a fourth with one stream carrying 125..129, 254..258, 300 and ~496 tiny descriptors, and a fifth whose bytes are almost all program-level descriptors: program_info_length 127..998, around 255/256, 511/512, 767/768) x lead-in {pointer_field 0, pointer_field 100 with filler, foreign section first; for two lengths also a foreign section with section_length 1022 / 1023, one / two empty sections (section_length 0), and a private section with section_length 1500 / 4093 first} x last-packet style (quick: one style per variant); the last stream's ES_info_length exceeds 255; per case: accessors, done predicate on every prefix, ExtractCRC, NewPMT, ReadPMT for every first-packet size 1..184 x second packet full/3 bytes with a foreign-PID packet in every gap; non-trivial = each (case, first size, second size)",
 				Gen:  c06GenBig, Check: witnessEnum(c06CheckBig, witnessPSI), Batch: 1,
 			},
 			&engine.Enum[c06ReuseCase]{
